@@ -21,6 +21,7 @@ PATH_FUNCS = {  # name -> indexes of path arguments
     "mkdir": (0,), "rmdir": (0,), "chmod": (0,), "listdir": (0,), "scandir": (0,), "open": (0,),
     "truncate": (0,), "link": (0, 1), "symlink": (0, 1), "utime": (0,), "access": (0,),
 }
+_SWALLOWING_PROBES = {"exists", "isfile", "isdir", "lexists", "islink", "ismount"}
 PROBES = {"stat", "lstat", "access", "listdir", "scandir"}   # not fault sites, not mutations
 MUTATING = {"rename", "replace", "remove", "unlink", "mkdir", "rmdir", "chmod", "truncate", "link",
             "symlink", "utime", "f.write", "f.writelines", "f.truncate", "f.flush", "f.close",
@@ -118,6 +119,16 @@ def _wrap_path_func(name, real, idxs):
             return real(*a, **k)
         mode = None
         nm = name
+        if name in ("stat", "lstat"):
+            # an EXISTENCE PROBE (os.path.exists / isfile / isdir / islink ...) reports a failing stat as "absent"; every
+            # other stat (os.path.getsize, os.stat, Path.stat) lets the error through: a fault site like any other operation
+            import sys
+            try:
+                caller = sys._getframe(1).f_code
+                if not (caller.co_name in _SWALLOWING_PROBES and ("genericpath" in caller.co_filename or "posixpath" in caller.co_filename)):
+                    nm = "stat.strict"
+            except Exception:
+                pass
         if name == "open":
             nm = "os.open"
             flags = a[1] if len(a) > 1 else k.get("flags", 0)
